@@ -1,5 +1,6 @@
 """C04  Knot insertion never changes the shape."""
 import itertools
+import random
 from fractions import Fraction as F
 from core import Case, q, qs, fr, show_list, show_pts
 import gen as G
@@ -12,11 +13,12 @@ FLOAT_TOL = 1e-8
 STATS = G.STATS
 KIND = {'curve': 'c', 'surface': 's', 'volume': 'v'}
 PARTIAL = [
-    "A5.1 as coded is MODELLED literally for BOTH branches of helpers.knot_insertion and PROVED equal to the index-form models: point branch (curves and the iso-curves of surfaces: knotInsertionA51, Model/InsertA51.lean, streams ins-a51 / ins-pt) and list-of-rows branch (what operations.insert_knot feeds for volumes: knotInsertionRowsA51, Model/InsertRowsA51.lean - same allocation / copy loops / temp initialisation / edge writes / final loop, and in the sweep the sequential loop `for idx in range(len(temp[i])): temp[i][idx][:] = ...` over the points of a row; streams ins-rows-a51 against the real helper called with rows, incl. s > 0, num > 1, num = 0, first / last span, unclamped knot vectors, s / span / u not belonging together; the streams also check that the caller's rows are left unchanged). knot_insertion_as_coded_eq_model / knot_insertion_rows_as_coded_eq_model: for every knot function, polygon / list of rows, parameter, num >= 0, s and span k with p <= k and num + s <= p the loops return, slot by slot (and point by point), what knotInsertion / knotInsertionRows return (one generic proof over the element type and the blend: Lemmas/A51Loops*.lean; the equality of the model functions needs nothing about the knots, but the three POINT-branch as-coded statements knot_insertion_as_coded_eq_model / insert_as_coded_surface_nets_eq / insert_as_coded_net_length now CARRY the guard under which the helper does not raise ZeroDivisionError - sorted knots and a non-empty span argument U_k < U_{k+1}, insert_as_coded_denominators_positive: every alpha denominator is positive then - plus point dimension >= 1 in insert_as_coded_net_length; where a denominator the loops compute IS zero the model divides x/0 = 0, the helper raises and the driver ops insa51 / inspt answer ERR, testing exactly those denominators (Drv.a51DivByZero: an empty span argument with no vanishing denominator is computed by both sides); free calls with an EMPTY span argument are generated, witness insert_as_coded_empty_span_witness; the rows-branch statement knot_insertion_rows_as_coded_eq_model does not carry that guard yet); knot_insertion_rows_as_coded_isocurve: every iso-curve of the loops on rows is the loops on that iso-curve. OBJECT LEVEL: insertKnotDirCoded / insertKnotCoded (Model/KnotOpsCoded.lean: knotInsertionA51 on every iso-curve of a curve / surface, ONE call of knotInsertionRowsA51 on the gathered rows of a volume; stream ins-coded against operations.insert_knot) are PROVED equal to insertKnotDir / insertKnot (insertKnotDir_as_coded_eq_model: degree + 1 <= size, and num + s <= degree when check=False; insertKnot_as_coded_eq_model_curve / _surface / _volume: well-formed object, every requested direction admissible or rejected by the multiplicity check), so shape preservation is a theorem about the loops as coded for curves (insert_as_coded_preserves_curve_point, insert_as_coded_preserves_curve), surfaces (insert_as_coded_preserves_surface) and volumes (insert_as_coded_preserves_volume). NOT covered: calls outside the guard (k < degree or num + s > degree: reachable only through explicit keyword arguments or check=False), where Python's negative indices wrap around and the transcriptions do not follow; rows in which the same point OBJECT occurs twice (deepcopy keeps the aliasing inside a row and the in-place blend would hit the point twice; operations.insert_knot never builds such rows: the points of a geometry are distinct lists) - the transcription is value-semantic (argued in Model/InsertRowsA51.lean: no object shared with the caller or between two slots of temp is ever mutated)",
+    "A5.1 as coded is MODELLED literally for BOTH branches of helpers.knot_insertion and PROVED equal to the index-form models: point branch (curves and the iso-curves of surfaces: knotInsertionA51, Model/InsertA51.lean, streams ins-a51 / ins-pt) and list-of-rows branch (what operations.insert_knot feeds for volumes: knotInsertionRowsA51, Model/InsertRowsA51.lean - same allocation / copy loops / temp initialisation / edge writes / final loop, and in the sweep the sequential loop `for idx in range(len(temp[i])): temp[i][idx][:] = ...` over the points of a row; streams ins-rows-a51 against the real helper called with rows, incl. s > 0, num > 1, num = 0, first / last span, unclamped knot vectors, s / span / u not belonging together; the streams also check that the caller's rows are left unchanged). knot_insertion_as_coded_eq_model / knot_insertion_rows_as_coded_eq_model: for every knot function, polygon / list of rows, parameter, num >= 0, s and span k with p <= k and num + s <= p the loops return, slot by slot (and point by point), what knotInsertion / knotInsertionRows return (one generic proof over the element type and the blend: Lemmas/A51Loops*.lean; the equality of the model functions needs nothing about the knots, but the three POINT-branch as-coded statements knot_insertion_as_coded_eq_model / insert_as_coded_surface_nets_eq / insert_as_coded_net_length now CARRY the guard under which the helper does not raise ZeroDivisionError - sorted knots and a non-empty span argument U_k < U_{k+1}, insert_as_coded_denominators_positive: every alpha denominator is positive then - plus point dimension >= 1 in insert_as_coded_net_length; where a denominator the loops compute IS zero the model divides x/0 = 0, the helper raises and the driver ops insa51 / inspt answer ERR, testing exactly those denominators (Drv.a51DivByZero: an empty span argument with no vanishing denominator is computed by both sides); free calls with an EMPTY span argument are generated, witness insert_as_coded_empty_span_witness; the rows-branch statements knot_insertion_rows_as_coded_eq_model / _isocurve carry the same guard since statement audit 5 - hm, hspan and rows of at least one point -, the ops rowsinsa51 / rowsins answer ERR on a vanishing denominator and the free rows stream draws empty span arguments); knot_insertion_rows_as_coded_isocurve: every iso-curve of the loops on rows is the loops on that iso-curve. OBJECT LEVEL: insertKnotDirCoded / insertKnotCoded (Model/KnotOpsCoded.lean: knotInsertionA51 on every iso-curve of a curve / surface, ONE call of knotInsertionRowsA51 on the gathered rows of a volume; stream ins-coded against operations.insert_knot) are PROVED equal to insertKnotDir / insertKnot (insertKnotDir_as_coded_eq_model: degree + 1 <= size, and num + s <= degree when check=False; insertKnot_as_coded_eq_model_curve / _surface / _volume: well-formed object, every requested direction admissible or rejected by the multiplicity check), so shape preservation is a theorem about the loops as coded for curves (insert_as_coded_preserves_curve_point, insert_as_coded_preserves_curve), surfaces (insert_as_coded_preserves_surface) and volumes (insert_as_coded_preserves_volume). NOT covered: calls outside the guard (k < degree or num + s > degree: reachable only through explicit keyword arguments or check=False), where Python's negative indices wrap around and the transcriptions do not follow; rows in which the same point OBJECT occurs twice (deepcopy keeps the aliasing inside a row and the in-place blend would hit the point twice; operations.insert_knot never builds such rows: the points of a geometry are distinct lists) - the transcription is value-semantic (argued in Model/InsertRowsA51.lean: no object shared with the caller or between two slots of temp is ever mutated)",
     "object level (Props/C04.lean, insertKnot_preserves_surface / _volume, insert_call_sequence_preserves_surface / _volume): one insert_knot call with any subset of the directions of a surface or a volume, and any sequence of such calls, completes and preserves well-formedness, the domain and every evaluated point at every parameter of the domain - under the explicit hypothesis that every requested direction is admissible (DirReqOk: parameter in the half-open domain [U_p, U_n), the multiplicity s computed by find_multiplicity is a run ending at the span, r + s <= p; derivable from tolerance separation by insert_request_admissible); a direction rejected by the multiplicity check leaves the earlier directions applied and the points unchanged (insertKnot_partial_application_*). NOT covered by a theorem: a parameter outside the half-open domain of its direction (e.g. u = U_n), check=False with r + s > p, and curve objects at Shape level (curves are proved at helper level: insert_sequence_preserves - points unchanged on the closed domain AND the final state CurveWF with both domain ends unchanged; insert_net_length: r more points, each of the same dimension)",
     "rational objects: the theorems are about the homogeneous net (coordinatewise, weight coordinate included); the projection is C01/C09's",
     "list-of-rows branch of helpers.knot_insertion (volumes), index form: knotInsertionRows (gather / scatter volRows / volUnrows / mapVolRows with the index expressions of operations.insert_knot; streams ins-rows / ins-vol-rows against the real helper called with rows and against operations.insert_knot) is PROVED equal to the per-iso-curve model (knotInsertionRows_isocurve: no hypothesis; knotInsertionRows_is_transposed_knotInsertion; mapVolRows_insert_eq_mapVol; insertKnotVolRows_is_insertKnotDir) and to the in-place loops as coded (knot_insertion_rows_as_coded_eq_model), so the volume theorems are about what the rows branch computes. Not covered: ragged rows (rows of different lengths: IndexError in the code) beyond the iso-curve statement",
     "guards stated as hypotheses (not used by the proofs, mirroring the code / driver): object-level insert_knot theorems (insertKnot_preserves_*, insertKnot_partial_application_*, insert_call_sequence_preserves_*) require params and num to have exactly one entry per parametric direction (the code raises otherwise; the model reads a missing entry as 'nothing requested'); knotInsertionRows_isocurve requires rectangular rows (ragged rows: IndexError in the code, [] padding in the model); insert_sequence_net_unique needs AllActive of the resulting knot vector (necessary)",
+    "which span search the object-level models use (statement audit 5, I3): insertKnotDir / insertKnotDirCoded / removeKnotDir / a54Init(Rows) and the volume-rows wrappers call findSpanLinear, the search WITHOUT the step back of the F-01b repair (the code's find_span_linear = findSpanLinearR); they differ only at u = U_n of a knot vector with an empty last domain span (U_{n-1} = U_n), which every theorem excludes (KvWF.last, DirReqOk.hi) - there the models are NOT the code (real insert_knot(c,[5],[1]) on U = [0,1,2,3,4,5,5,6,7,8], degree 3, uses span 4, the model span 5: different nets) and the driver ops ins / insm / insc / ops I,R / rowsvol I,R answer OUT: the model line is not compared (core.py, evidence correspondence.outside_model), the oracle alone judges; stream end-empty-last-span (unclamped curves, insertion AT the closed domain end: outside the property's quantifier 'clamped'; the code accepts it and CHANGES the shape - as for any insertion at the closed end of an unclamped curve - so only acceptance, knot vector and net size are judged)",
 ]
 
 
@@ -208,10 +210,19 @@ def gen(rng, tier):
             genuine = True
         else:
             k = rng.choice(spans + [spans[0], spans[-1]])
+            empty = [k_ for k_ in range(p, n_) if kv[k_] == kv[k_ + 1]]
+            lr = random.Random("%s %d %d" % (show_list(kv), p, k))     # local draw: the main random stream stays as it was
+            if empty and lr.random() < .45:
+                # malformed (statement audit 5, I1): an EMPTY span argument; an alpha denominator may vanish: ZeroDivisionError in
+                # the helper = ERR of rowsinsa51 / rowsins (Drv.a51DivByZero), outside the guard hspan of the rows theorems
+                k = lr.choice(empty)
             r = rng.randint(0, p)
             s = rng.randint(0, p - r)
             u = rng.choice([kv[k], kv[k] + (kv[k + 1] - kv[k]) * F(rng.randint(1, 99), 100), kv[0] - 1, kv[-1] + F(1, 3)])
             genuine = False
+            if kv[k] == kv[k + 1]:
+                zero = any(kv[i + k + 1] == kv[k - p + j + i] for j in range(1, r + 1) for i in range(0, p - j - s + 1))
+                G.count('rows_a51_empty_span', 'zero-denominator' if zero else 'no-division-by-zero')
         G.count('rows_a51', (p, s, r, 'first' if k == p else ('last' if k == n_ - 1 else 'mid'), 'genuine' if genuine else 'free'))
         data = dict(p=p, kv=kv, R=R, u=u, r=r, s=s, k=k, free=True)
         out.append(Case('ins-rows-a51', RO.rows_line('rowsinsa51', p, kv, R, fr(u), r, s, k), data))
@@ -291,6 +302,40 @@ def gen(rng, tier):
         data = dict(shape=d, u=u, r=r, s=s, k=k, genuine=genuine)
         out.append(Case('ins-a51', "insa51 " + tail, data))
         out.append(Case('ins-pt', "inspt " + tail, data))
+    # insertion AT THE DOMAIN END u = U_n of a knot vector whose last domain span is EMPTY (unclamped, U_{n-1} = U_n of multiplicity
+    # 2..p-1; statement audit 5, I3): the repaired find_span_linear of the code steps back to the last non-empty span, the
+    # knot-operation MODELS search without the step back - the driver ops answer OUT (outside the model, core.py: not compared),
+    # the implementation is judged by the oracle alone: accepted, knot vector = old + copies, net size (NOT the points: insertion at the
+    # closed domain end of an unclamped curve changes the shape - outside the property's quantifier 'clamped', see the oracle)
+    for _ in range(8 if tier == 'quick' else 80):
+        p = rng.randint(3, 5)
+        s_ = rng.randint(2, p - 1)
+        n_ = p + rng.randint(s_ + 1, s_ + 3)
+        ks = sorted(rng.sample(range(0, 4 * (n_ + p + 2)), n_ + p + 1))
+        kv = [F(x, 4) for x in ks]
+        for j in range(n_ - s_ + 1, n_ + 1):
+            kv[j] = kv[n_]
+        if not (kv[p] < kv[n_ - s_] < kv[n_] < kv[n_ + 1]):
+            continue
+        dim = rng.choice([2, 3])
+        P = [[F(rng.randint(-9, 9), rng.choice([1, 2])) for _ in range(dim)] for _ in range(n_)]
+        d = dict(kind='curve', rat=False, p=p, kv=kv, n=n_, P=P, dim=dim)
+        prm, nums = [kv[n_]], [rng.randint(1, p - s_)]
+        G.count('ins_param', 'domain-end-empty-last-span')
+        line = "ins c %s %s" % (S.args(d), req_txt(prm, nums))
+        out.append(Case('ins-op', line, dict(shape=d, reqs=[[prm, nums]]), tags=('end-empty-last-span',)))
+    # check_num=False (statement audit 5, I4): admissible requests sent with chk = 0 - the `check = false` branch of insertKnot /
+    # insertKnotCoded against operations.insert_knot(..., check_num=False); the `num` list may then stop after the last
+    # direction that has a parameter (num[i] is only read where param[i] is not None)
+    for _ in range(12 if tier == 'quick' else 150):
+        d = _shape(rng)
+        prm, nums = rand_request(rng, d)
+        sent = list(nums)
+        while len(sent) > 1 and prm[len(sent) - 1] is None and rng.random() < .6:
+            sent.pop()
+        G.count('ins_unchecked', (d['kind'], len(sent) < len(nums)))
+        line = "ins %s %s %s" % (KIND[d['kind']], S.args(d), req_txt(prm, sent, chk=False))
+        out.append(Case('ins-op', line, dict(shape=d, reqs=[[prm, nums]], sent=sent, chk=False), tags=('check-num-false',)))
     # every operations-level call once more against the object-level model built from the helper's loops AS CODED
     # (`insertKnotCoded`: knotInsertionA51 on every iso-curve of a curve / surface, knotInsertionRowsA51 on cpt2d for a volume)
     for c in [c for c in out if c.kind == 'ins-op']:
@@ -334,12 +379,15 @@ def _oracle_a51(c):
     return None
 
 
-def _apply(o, d, reqs, method):
+def _apply(o, d, reqs, method, sent=None, chk=True):
     from geomdl import operations
     for prm, nums in reqs:
         qp = [None if x is None else q(x) for x in prm]
         if not method:
-            operations.insert_knot(o, qp, list(nums))
+            if chk:
+                operations.insert_knot(o, qp, list(nums))
+            else:
+                operations.insert_knot(o, qp, list(sent if sent is not None else nums), check_num=False)
         else:
             import io, contextlib
             with contextlib.redirect_stdout(io.StringIO()):
@@ -385,7 +433,7 @@ def impl(c):
         return show_shape(S.from_obj(_vol_rows(c)))
     d = c.data['shape']
     o = S.build(d)
-    _apply(o, d, c.data['reqs'], c.kind not in ('ins-op', 'ins-coded'))
+    _apply(o, d, c.data['reqs'], c.kind not in ('ins-op', 'ins-coded'), c.data.get('sent'), c.data.get('chk', True))
     return show_shape(S.from_obj(o))
 
 
@@ -408,9 +456,13 @@ def _oracle_rows(c):
     """the rows branch must return, iso-curve by iso-curve, what the point branch returns"""
     from geomdl import helpers
     x = c.data
+    kv_, p_, k_ = x['kv'], x['p'], x['k']
+    zero = any(kv_[i + k_ + 1] == kv_[k_ - p_ + j + i] for j in range(1, x['r'] + 1) for i in range(0, p_ - j - x['s'] + 1))
     try:
         Q = _rows_call(c)
     except Exception as e:
+        if zero and isinstance(e, ZeroDivisionError):
+            return None          # empty span argument with a vanishing alpha denominator: outside the guard (ERR on both sides)
         return "knot_insertion on rows raised %s: %s" % (type(e).__name__, e)
     m = len(x['R'][0])
     cols = []
@@ -454,7 +506,7 @@ def oracle(c):
     o = S.build(d)
     before = S.from_obj(o)
     try:
-        _apply(o, d, reqs, method)
+        _apply(o, d, reqs, method, c.data.get('sent'), c.data.get('chk', True))
         raised = False
     except Exception as e:
         raised = True
@@ -488,6 +540,12 @@ def oracle(c):
                     return "direction %d: control net size %d, expected %d" % (i, n2, n + r)
                 if p2 != p:
                     return "direction %d: degree changed" % i
+    if 'end-empty-last-span' in c.tags:
+        # OUTSIDE the property's quantifier (clamped knot vectors): insert_knot AT the closed domain end of an UNCLAMPED curve
+        # is accepted by the code and CHANGES the shape - with a simple end knot (driver = code, every theorem excludes it
+        # through DirReqOk.hi) and with an empty last span (this stream; the model line answers OUT).  Only the bookkeeping
+        # above (accepted, knot vector = old + copies in sorted position, net size, degree) is judged here.
+        return None
     extra = [[prm[i] for prm, _ in reqs if prm[i] is not None] for i in range(nd)]
     grid = probe_params(d, extra)
     for combo in itertools.product(*grid):
